@@ -2,6 +2,12 @@
 """Generate MANIFEST.json from the table below (single source of truth)."""
 import json, subprocess
 CHECKS = {
+ "C05": ("exploration", "hostile-input monitor in supervised child processes (recover/fatal/watchdog/alloc accounting/result well-formedness)",
+         "Structure-aware mutation and hand-made declaration bombs against every decoding entry point; each child logs the case before executing it, runs under ulimit -v, and measures TotalAlloc against a bound linear in input length and declared pixel area; hangs are judged only after three isolated re-runs.",
+         "Declared area comes from an over-approximating scanner; inputs whose declared-size bound exceeds 1.5 GiB are not executed (counted as inconclusive).", "3/C05"),
+ "C12": ("exploration", "cross-process differential monitor over GOMAXPROCS values",
+         "The same case list runs in child processes of one binary with GOMAXPROCS in {1,2,3,4,8,16,32}; digests of Encode bytes, Decode pixels and parallel frame decoding must equal the GOMAXPROCS=1 child's.",
+         "Corpus built to sit above and just below every parallel threshold in the code base at the pinned commit.", "3/C12"),
  "C03": ("exploration", "differential decode monitor: VP8L stream synthesizer + libwebp-encoded files vs libwebp reference decoder",
          "Decodes thousands of syntactically valid VP8L streams that this package's encoder never emits (all transform orders, packings, cache/meta sizes, code shapes, distance codes) and compares every pixel with libwebp's decode; coverage counters come from the synthesizer's own choices.",
          "libwebp 1.2.4 is trusted as the definition of the format; a stream counts as valid iff libwebp accepts it.", "3/C03"),
